@@ -130,7 +130,7 @@ def _is_attrs(o):
     return hasattr(type(o), '__attrs_attrs__')
 
 
-def snapshot(o, with_ids=False, with_meta=True):
+def snapshot(o, with_ids=False, with_meta=True, with_types=True):
     """Canonical, hashable, NaN-proof encoding of an AST (or any value inside one).
 
     Every attrs field in declaration order, floats by repr, enums by class and name, the
@@ -147,23 +147,29 @@ def snapshot(o, with_ids=False, with_meta=True):
             if a.name == 'metadata':
                 if not with_meta:
                     continue
-                enc = tuple(sorted((str(k), snapshot(x, with_ids, with_meta)) for k, x in v.items()))
+                enc = tuple(sorted((str(k), snapshot(x, with_ids, with_meta, with_types)) for k, x in v.items()))
                 parts.append(('metadata', id(v) if with_ids else 0, enc))
+            elif a.name == 'data_type' and not with_types:
+                continue
             else:
-                parts.append((a.name, snapshot(v, with_ids, with_meta)))
+                parts.append((a.name, snapshot(v, with_ids, with_meta, with_types)))
         return tuple(parts)
     if isinstance(o, enum.Enum):
         return ('enum', type(o).__name__, o._name_ if o._name_ is not None else repr(o._value_))
-    if isinstance(o, bool) or o is None or isinstance(o, (int, str)):
+    if isinstance(o, bool) or o is None:
         return (type(o).__name__, o)
+    if isinstance(o, str):
+        return ('str', str.__str__(o))  # lark Token is a str subclass: same value, same encoding
+    if isinstance(o, int):
+        return ('int', int(o))
     if isinstance(o, float):
         return ('float', repr(o))
     if isinstance(o, (tuple, list)):
-        return (type(o).__name__,) + tuple(snapshot(x, with_ids, with_meta) for x in o)
+        return (type(o).__name__,) + tuple(snapshot(x, with_ids, with_meta, with_types) for x in o)
     if isinstance(o, dict):
-        return ('dict',) + tuple(sorted((str(k), snapshot(x, with_ids, with_meta)) for k, x in o.items()))
+        return ('dict',) + tuple(sorted((str(k), snapshot(x, with_ids, with_meta, with_types)) for k, x in o.items()))
     if isinstance(o, (set, frozenset)):
-        return ('set',) + tuple(sorted(repr(snapshot(x, with_ids, with_meta)) for x in o))
+        return ('set',) + tuple(sorted(repr(snapshot(x, with_ids, with_meta, with_types)) for x in o))
     return ('opaque', type(o).__name__, repr(o))
 
 
